@@ -2,8 +2,9 @@ from propcommon import *  # noqa
 
 CFG = dict(
         level="proof",
-        lean_modules=["ElysModel.Props.C16"],
-        props_files=["ElysModel/Props/C16.lean"],
+        lean_modules=["ElysModel.Props.C16", "ElysModel.Props.C16Src"],
+        pre_cmds=[GO2LEAN],
+        props_files=["ElysModel/Props/C16.lean", "ElysModel/Props/C16Src.lean"],
         runs=[dict(mode="c16", n_quick=150, n_thorough=1500, shards_quick=8, shards_thorough=14)],
         rule="scripts of oracle operations on the real keeper and message server (set asset info; add/remove/activate/deactivate "
              "feeders; FeedPrice / FeedMultiplePrices from feeders and non-feeders; direct SetPrice at chosen timestamps; EndBlock at "
@@ -11,10 +12,10 @@ CFG = dict(
              "alphabet) with asset and source names drawn from a small alphabet whose prefixes and concatenations collide; an "
              "evaluation is one op or one lookup; non-trivial = the op did not fail; distinct = distinct (op, arguments, result, "
              "observed store / answer) tuples",
-        trusted_base=COMMON_TB + ["keeper and msg server driven directly on a CacheContext branch of the genesis state with "
+        trusted_base=COMMON_TB + [SRC_TB, "keeper and msg server driven directly on a CacheContext branch of the genesis state with "
                                   "ctx.WithBlockTime/WithBlockHeight and per-message CacheContext (not through FinalizeBlock); "
                                   "ValidateBasic is called by the harness and a rejected message is replayed as a failed no-op"],
-        assumptions=["price store written only through SetPrice (keys derived from values); timestamps/heights far from uint64 overflow "
+        assumptions=[SRC_ASSUME, "price store written only through SetPrice (keys derived from values); timestamps/heights far from uint64 overflow "
                      "in the generated scripts (the model itself uses the code's wrapping uint64 sums)",
                      "lookup exactness is proved under the decidable no-collision hypothesis on stored keys; without it the code "
                      "returns foreign prices (known finding C16-key-prefix-collision, witness theorems)"],
